@@ -436,7 +436,6 @@ func isLeadingSlice(v ssa.Value) bool {
 	return ok && sl.Low == nil
 }
 
-
 // prefixFoundByIndexFunc: the edge establishes `i >= 0` for i = slices.IndexFunc(list, func(e) bool { return
 // strings.HasPrefix(s, e) }) and the prefix whose length is sliced off is (a leading slice of) list[i].
 func prefixFoundByIndexFunc(b *ssa.BasicBlock, succ int, s ssa.Value, prefix ssa.Value) bool {
